@@ -22,6 +22,33 @@ TEXT = {
    ref='4/C19'),
 }
 
+ 'C12': dict(
+   technique='deterministic simulation: real StandardRoundTimer on a fake clock, seeded statement-level interleaving of its goroutine with a caller issuing start/cancel/restart sequences',
+   text='Part (b) of the property (production round timer): seeded search over caller scripts and over every interleaving point of the timer goroutine (selects with seeded pre-pass, yields between statements) on the synctest fake clock; oracle: no panic, cancelled never elapses, never early, every start returns, armed timers fire. Part (a) (state-machine timer discipline) is decided by the state-machine harness when present in harness.json.',
+   note='The caller respects its side of the contract (no start while a timer is outstanding). A panic of the timer goroutine kills the worker process and is classified by the runner.',
+   ref='4/C12'),
+ 'C14': dict(
+   technique='deterministic simulation of the wire: generated frames of every message kind over tmjson with seeded corruption faults (bit flips, truncation, insertion, splice, structural JSON damage)',
+   text='Seeded generation of values of all five message kinds (plus consensus-message wrapping) compared field by field after a clean delivery, and seeded damage of those frames offered to every Unmarshal method, which must return an error or a value and never panic. Sampling of the input space, not enumeration.',
+   note='Input-quantified property; the simulator contributes the fault model of the wire, no schedule dimension. Byte fields compared by content. No coverage-guided fuzzing (outside this technique).',
+   ref='4/C14'),
+ 'C15': dict(
+   technique='deterministic simulation of in-flight tampering and signature replay: single-field header mutants and re-filed vote targets, hash / sign-bytes inequality checked at injection',
+   text='Seeded man-in-the-middle faults: every run mutates exactly one hash-covered field of a generated header (20 field kinds) and requires a different block hash, checks the hash-neutral variants, and compares the sign bytes of seeded sets of vote/proposal targets pairwise (and their stability across later calls).',
+   note='Input-quantified property; no schedule dimension. Validator lists are out of scope here (C07).',
+   ref='4/C15'),
+ 'C17': dict(
+   technique='deterministic simulation: real ChattyStrategy fed kernel-shaped view update sequences, broadcaster back-pressure decided by the seeded scheduler, completeness/soundness of the broadcast set at quiescence',
+   text='Seeded search over view-update histories (growing votes, equivocators, nil-voted rounds, commits, skipped rounds, coalesced updates) and over the instants at which the broadcaster reads; after each update the broadcast set must cover everything handed over and nothing else.',
+   note='Of a nil-voted round only the final precommits are owed. The mirror kernel is a stub here (generator); the real kernel output is monitored in the multi-node harness when present.',
+   ref='4/C17'),
+ 'C20': dict(
+   technique='deterministic simulation: real DaisyChainNetwork line A-B-C with seeded handler verdicts, handler swaps racing with arrivals (seeded select pre-pass)',
+   text='In-memory half of the property: seeded search over B\'s verdicts (incl. out-of-range values), B\'s handler state over time and the interleaving of arrivals with SetConsensusHandler; C may see a message only if B\'s installed handler accepted it. The libp2p half is decided by the libp2p part when present in harness.json.',
+   note='Nothing is demanded about messages that should arrive. Handlers, publisher and swapper are harness goroutines.',
+   ref='4/C20'),
+}
+
 NOT_APPLICABLE = {
  'C18': 'pure integer function of one argument (ByzantineMajority/ByzantineMinority): no schedule, clock, fault or interleaving for a simulator to sample; see DESIGN.md section 5',
 }
